@@ -228,6 +228,8 @@ def apply(d, pos, kind, eng, tag):
         for k in (('encr', 'integ', 'prf', 'dh') if level == 'conn_lists' else ('encr', 'integ', 'dh')):
             ok |= apply(d, ('conn' if level == 'conn_lists' else 'protect', k), kind, eng, tag + k)
         return ok
+    if level != 'top' and not isinstance(d.get('conn1'), dict):
+        return False            # an earlier mutation replaced / removed the connection itself: nothing below it is left to mutate
     if level == 'top':
         target, k = d, key
     elif level == 'conn':
@@ -255,7 +257,8 @@ def apply(d, pos, kind, eng, tag):
     return True
 
 
-def h_reject(n_mut, listen_kind):
+def h_reject(n_mut, listen_kind, first_pos=None):
+    """first_pos: index of the first mutated position (splits the two-mutation exploration into one instance per first position)"""
     from symx import core
     from ipaddress import ip_address
     eng = core.engine()
@@ -263,7 +266,7 @@ def h_reject(n_mut, listen_kind):
     d = base_dict()
     done = []
     for i in range(n_mut):
-        pos = choose(eng, f'position{i}', POSITIONS)
+        pos = choose(eng, f'position{i}', POSITIONS) if not (i == 0 and first_pos is not None) else POSITIONS[first_pos]
         kind = choose(eng, f'kind{i}', KINDS)
         apply(d, pos, kind, eng, f'm{i}')
         done.append(f'{pos[0]}.{pos[1]}={kind}')
@@ -454,8 +457,9 @@ def build_instances(tier):
                          must_reach=[('rejected', lambda o: o == ['reject', 'ConfigurationError']), ('loaded', lambda o: o == ['reject', 'loaded'])]))
     inst.append(Instance('one ill-typed / missing value, not listening', h_reject, (1, 'other'), native=nat(h_reject), engine_kw={'max_ticks': 10 ** 7}))
     if tier == 'thorough':
-        inst.append(Instance('two ill-typed / missing values', h_reject, (2, 'listening'), native=nat(h_reject),
-                             engine_kw={'max_ticks': 10 ** 7, 'max_wall_s': 3000, 'max_paths': 400000}))
+        for fp in range(len(POSITIONS)):
+            inst.append(Instance(f'two ill-typed / missing values, the first at {POSITIONS[fp][0]}.{POSITIONS[fp][1]}', h_reject, (2, 'listening', fp), native=nat(h_reject),
+                                 engine_kw={'max_ticks': 10 ** 7, 'max_wall_s': 3000, 'max_paths': 400000}))
     return inst
 
 
